@@ -105,6 +105,10 @@ func (p *peekingReader) Read(d []byte) (int, error) {
 }
 
 func (p *peekingReader) Close() error {
+	if p == nil {
+		// a nil peekingReader stands for an absent body (see newPeekingReader): nothing to close
+		return nil
+	}
 	if p.underlying == nil {
 		return errors.New("reader already closed")
 	}
